@@ -8,7 +8,7 @@ def std_replay(mod):
     def replay(rp):
         cfg = rp.get('config')
         if cfg:
-            fail = mod.oracle_run(cfg)
+            fail = run_oracle(mod, cfg)
             return dict(config=cfg, fails=bool(fail), failure=fail)
         return dict(fails=None, note='obligation replay: rebuild with ./check %s' % mod.ID, obligations=rp.get('broken_obligations'))
     return replay
